@@ -123,7 +123,7 @@ class HeaderExtensionsMap:
             extensions.append(
                 (
                     self.__ids.transmission_offset,
-                    pack("!l", values.transmission_offset << 8)[0:2],
+                    pack("!l", values.transmission_offset << 8)[0:3],
                 )
             )
         if values.audio_level is not None and self.__ids.audio_level:
